@@ -352,7 +352,7 @@ Definition parse_expr (fuel : nat) (ts : list tok) : res :=
   | y => y
   end.
 
-Definition fuel_for (ts : list tok) : nat := 12 * length ts + 12.
+Definition fuel_for (ts : list tok) : nat := 14 * length ts + 14.   (* enough: Proofs/ExprTotal.v, parse_total *)
 Definition parse (ts : list tok) : res := parse_expr (fuel_for ts) ts.
 
 (* ---------- the tree the parser must give back ----------
